@@ -70,6 +70,7 @@
       copy( d, s )  : assign( d, get_native( s ));            // guard load, hazard store, sync                                  // [a_gld][a_gst][a_sync]
     Guard:  Guard() pops one guard (no atomic);  assign(p) = [a_gst][a_sync];  ~Guard() = clear() [a_gst], push on the free list.
     guarded_ptr (extract / get): owns the released guard; its destructor clears it [a_gst] and pushes it on the free list.
+      The harness (adapters.h smr_guarded) tests and dereferences a non-empty guarded_ptr: guard_->get() twice   // [a_gld][a_gld]
     gc::HP::retire<Disposer>( p ): retired_.push(): cur = current_.load(relaxed); *cur = p; current_.store( cur + 1 )    // [a_rld][a_rst]
       (the harness gives cds::gc::HP a retired capacity that is never reached inside a case: scan() does not run,
        nothing is freed or reused during a case)
@@ -96,8 +97,10 @@ Local Open Scope string_scope.
 
 (** ** shared state *)
 Record node := mkNode { nkey : Z; nnext : nat; nmark : bool }.
-(** [head]: m_pHead (0 = nullptr); [heap n]: node with id n (ids 1 .. nalloc are allocated); [count]: m_ItemCounter *)
-Record G := mkG { head : nat; heap : nat -> node; nalloc : nat; count : Z }.
+(** [heap n]: node with id n; ids 1 .. nalloc are allocated, pointer value 0 = nullptr.  The list head m_pHead is
+    the m_pNext cell of the pseudo node 0 (never marked, never pointed to, its key is never read), so that every
+    pointer cell of the list is "the next field of node n".  [count]: m_ItemCounter *)
+Record G := mkG { heap : nat -> node; nalloc : nat; count : Z }.
 
 (** value returned by an access: pointer, mark bit, key of the pointee; a CAS reports success in [vmark] *)
 Record V := mkV { vptr : nat; vmark : bool; vkey : Z }.
@@ -106,25 +109,20 @@ Definition vok (b : bool) : V := mkV 0 b 0.
 
 Definition prog := Conc.prog G V ev.
 
-Inductive loc := LHead | LNext (n : nat).
+(** a pointer cell: the m_pNext of node [n]; [LHead] = m_pHead *)
+Definition loc := nat.
+Definition LHead : loc := 0%nat.
+Definition LNext (n : nat) : loc := n.
 
-Definition rd (g : G) (l : loc) : nat * bool :=
-  match l with
-  | LHead => (head g, false)
-  | LNext n => (nnext (heap g n), nmark (heap g n))
-  end.
+Definition rd (g : G) (l : loc) : nat * bool := (nnext (heap g l), nmark (heap g l)).
 
 Definition upd_heap (h : nat -> node) (n : nat) (x : node) : nat -> node :=
   fun m => if Nat.eqb m n then x else h m.
 
 Definition wr (g : G) (l : loc) (p : nat) (m : bool) : G :=
-  match l with
-  | LHead => mkG p (heap g) (nalloc g) (count g)
-  | LNext n => mkG (head g) (upd_heap (heap g) n (mkNode (nkey (heap g n)) p m)) (nalloc g) (count g)
-  end.
+  mkG (upd_heap (heap g) l (mkNode (nkey (heap g l)) p m)) (nalloc g) (count g).
 
-Definition obj_loc (l : loc) : list Z :=
-  match l with LHead => [0] | LNext n => [1; Z.of_nat n] end.
+Definition obj_loc (l : loc) : list Z := [1; Z.of_nat l].
 Definition obj_guard (t s : nat) : list Z := [2; Z.of_nat t; Z.of_nat s].
 Definition obj_sync (t : nat) : list Z := [3; Z.of_nat t].
 Definition obj_retired (t : nat) : list Z := [4; Z.of_nat t].
@@ -146,7 +144,7 @@ Definition a_cas (l : loc) (ep np : nat) (nm : bool) : act :=
 (** first access of a fresh node: allocate id [S (nalloc g)] with key [k] and store its m_pNext *)
 Definition a_alloc_st (k : Z) (p : nat) : act :=
   fun g => let n := S (nalloc g) in
-    (mkG (head g) (upd_heap (heap g) n (mkNode k p false)) n (count g), mkV n false k, [EvAcc KSt (obj_loc (LNext n)) true]).
+    (mkG (upd_heap (heap g) n (mkNode k p false)) n (count g), mkV n false k, [EvAcc KSt (obj_loc (LNext n)) true]).
 
 (** plain store to the m_pNext of the caller's own unlinked node *)
 Definition a_st_next (n p : nat) : act :=
@@ -160,7 +158,7 @@ Definition a_sync (t : nat) : act := a_nop KFaa (obj_sync t).
 Definition a_rld (t : nat) : act := a_nop KLd (obj_retired t).
 Definition a_rst (t : nat) : act := a_nop KSt (obj_retired t).
 Definition a_cnt (k : akind) (d : Z) : act :=
-  fun g => (mkG (head g) (heap g) (nalloc g) (count g + d), v0, [EvAcc k obj_count true]).
+  fun g => (mkG (heap g) (nalloc g) (count g + d), v0, [EvAcc k obj_count true]).
 
 Notation "x <- p ;; q" := (Conc.bind p (fun x => q)) (at level 61, p at next level, right associativity).
 
@@ -182,6 +180,10 @@ Definition copy_guard (t d s : nat) : prog unit :=
 Definition clear_guard (t s : nat) : prog unit := Act (a_gst t s) (fun _ => Ret tt).
 Definition retire (t : nat) : prog unit :=
   Act (a_rld t) (fun _ => Act (a_rst t) (fun _ => Ret tt)).
+
+(** the harness tests the returned guarded_ptr ( !gp : guard load ) and dereferences it ( *gp : guard load ) *)
+Definition use_guarded (t s : nat) : prog unit :=
+  Act (a_gld t s) (fun _ => Act (a_gld t s) (fun _ => Ret tt)).
 
 (** GuardArray<3>: slots (guard_prev, guard_current, guard_next) *)
 Definition alloc3 (fr : list nat) : (nat * nat * nat) * list nat :=
@@ -401,6 +403,7 @@ Definition run_op (fuel sf : nat) (ic : bool) (t : nat) (o : list Z) (ls : lstat
        | Some true =>
            (* guarded_ptr took guard_current; ~position frees the other two, then ~guarded_ptr *)
            fr2 <- free_guards t [g0; g2] fr1 ;;
+           _ <- use_guarded t g1 ;;
            fr3 <- free_guards t [g1] fr2 ;;
            Emit [ev_ret 1 (k + 1)] (Ret (Some (fr3, own)))
        | Some false =>
@@ -415,6 +418,7 @@ Definition run_op (fuel sf : nat) (ic : bool) (t : nat) (o : list Z) (ls : lstat
        | Some (found, _) =>
            if (Z.eqb code 8) && found then
              fr2 <- free_guards t [g0; g2] fr1 ;;
+             _ <- use_guarded t g1 ;;
              fr3 <- free_guards t [g1] fr2 ;;
              Emit [ev_ret 1 (k + 1)] (Ret (Some (fr3, own)))
            else if (Z.eqb code 10) && found then
@@ -443,7 +447,7 @@ Definition init_ls : lstate := (seq 0 16, []).
 Definition thread_prog (fuel sf : nat) (ic : bool) (t : nat) (os : list (list Z)) : Conc.thread G V ev :=
   Act a_begin (fun _ => run_ops fuel sf ic t os init_ls).
 
-Definition init : G := mkG 0 (fun _ => mkNode 0 0 false) 0 0.
+Definition init : G := mkG (fun _ => mkNode 0 0 false) 0 0.
 
 Fixpoint thread_progs (fuel sf : nat) (ic : bool) (t : nat) (ths : list (list (list Z))) : list (Conc.thread G V ev) :=
   match ths with
